@@ -142,6 +142,35 @@ def facts():
         "fn_np_flatten": tp.fn(nb, "flatten"), "fn_torch_flatten": tp.fn(tbo, "flatten"),
     }
     out["fns"] = {k: _stmts(v) for k, v in fns.items()}
+    # --- statements other owners' proposed fixes change (F16a matmul mask, int32 cast of index lists): each is
+    #     recognised in its two shapes, recorded in the configuration and emitted in the first (canonical) shape
+    mm_t = {"return MaskedTensor(tensor, self.mask)": "keep",
+            "mask = self.mask.bool().all(dim=-1, keepdim=True).expand(tensor.shape)|return MaskedTensor(tensor, mask)": "all_expand"}
+    mm_f = {"return MaskedTensor(tensor=tensor, mask=self.mask)": "keep",
+            "mask = tf.broadcast_to(tf.reduce_all(tf.cast(self.mask, tf.bool), axis=-1, keepdims=True), tf.shape(tensor))|return MaskedTensor(tensor=tensor, mask=mask)": "all_expand"}
+    for key, table, who, canon in (("fn_mt_torch_matmul", mm_t, "torch_mm", "return MaskedTensor(tensor, self.mask)"),
+                                   ("fn_mt_tf_matmul", mm_f, "tf_mm", "return MaskedTensor(tensor=tensor, mask=self.mask)")):
+        st = out["fns"][key]
+        if len(st) < 2:
+            tp.fail("%s: unrecognised body %s" % (key, st))
+        tail = "|".join(st[1:])
+        if tail not in table:
+            tp.fail("%s: unrecognised mask derivation %s" % (key, st[1:]))
+        out[who] = table[tail]
+        out["fns"][key] = [st[0], canon]
+    cast = "key = tf.constant(key, dtype=tf.int32)"
+    gi = out["fns"]["fn_mt_tf_getitem"]
+    gp = out["fns"]["fn_tf_get_points"]
+    canon_gp = "new_confidence = tf.transpose(tf.gather(confidence, indexes), perm=confidence_reshape)"
+    cast_gp = "new_confidence = tf.transpose(tf.gather(confidence, tf.constant(indexes, dtype=tf.int32)), perm=confidence_reshape)"
+    has_gi = len(gi) == 2 and gi[0].startswith("if isinstance(key, list):\n    " + cast + "\n")
+    has_gp = cast_gp in gp
+    if has_gi != has_gp:
+        tp.fail("TensorFlow index lists are cast to int32 in only one of MaskedTensor.__getitem__ / get_points")
+    out["tf_empty_ok"] = has_gi
+    if has_gi:
+        out["fns"]["fn_mt_tf_getitem"] = [gi[0].replace("    " + cast + "\n", "", 1)] + gi[1:]
+        out["fns"]["fn_tf_get_points"] = [canon_gp if x == cast_gp else x for x in gp]
     # TensorFlow must not define flatten (the base class raises NotImplementedError)
     if any(isinstance(n, ast.FunctionDef) and n.name == "flatten" for n in fb.body):
         out["tf_flatten"] = "defined"
@@ -154,10 +183,11 @@ def runner_cfg(f):
     """tree of C08_Run.t_cfg"""
     return [0 if f["np_axis"] == "-1" else 1, 0 if f["torch_rule"] == "!=" else 1, 0 if f["tf_rule"] == "!=" else 1,
             -1 if f["tf_stack"] == "data.shape[-1]" else int(f["tf_stack"]),
-            0 if f["torch_zf"] == "where" else 1, 0 if f["tf_zf"] == "where" else 1]
+            0 if f["torch_zf"] == "where" else 1, 0 if f["tf_zf"] == "where" else 1,
+            0 if f["torch_mm"] == "keep" else 1, 0 if f["tf_mm"] == "keep" else 1, 1 if f["tf_empty_ok"] else 0]
 
 
-REPAIRED_CFG = [0, 0, 0, -1, 0, 0]
+REPAIRED_CFG = [0, 0, 0, -1, 0, 0, 0, 0, 0]
 
 
 def gen():
